@@ -257,13 +257,18 @@ impl From<i128> for Cell {
 // FmtFlags (src/fmt_flags.rs, verified in unit cell): its base is the low byte of the raw value
 #[verifier::external_body] pub struct FmtFlags { _p: u8 }
 impl FmtFlags {
-    #[verifier::external_body] pub fn base(&self) -> (r: usize) ensures r <= 0xff { unimplemented!() }
+    pub uninterp spec fn base_s(&self) -> usize;
+    pub uninterp spec fn prefix_s(&self) -> bool;
+    pub uninterp spec fn upcase_s(&self) -> bool;
+    pub uninterp spec fn fit(&self) -> bool;
+    #[verifier::external_body] pub fn fitscreen(&self) -> (r: bool) ensures r == self.fit() { unimplemented!() }
+    #[verifier::external_body] pub fn base(&self) -> (r: usize) ensures r <= 0xff, r == self.base_s() { unimplemented!() }
     #[verifier::external_body] pub fn set_base(self, n: usize) -> FmtFlags { unimplemented!() }
-    #[verifier::external_body] pub fn show_prefix(&self) -> bool { unimplemented!() }
+    #[verifier::external_body] pub fn show_prefix(&self) -> (r: bool) ensures r == self.prefix_s() { unimplemented!() }
     #[verifier::external_body] pub fn set_show_prefix(self, t: bool) -> FmtFlags { unimplemented!() }
     #[verifier::external_body] pub fn show_tags(&self) -> bool { unimplemented!() }
     #[verifier::external_body] pub fn set_show_tags(self, t: bool) -> FmtFlags { unimplemented!() }
-    #[verifier::external_body] pub fn upcase(&self) -> bool { unimplemented!() }
+    #[verifier::external_body] pub fn upcase(&self) -> (r: bool) ensures r == self.upcase_s() { unimplemented!() }
     #[verifier::external_body] pub fn set_upcase(&self, t: bool) -> FmtFlags { unimplemented!() }
     #[verifier::external_body] pub fn build(self) -> Cell { unimplemented!() }
 }
@@ -306,6 +311,53 @@ impl State {
 //@use coll.fns ::core_word_newline
 //@use coll.fns ::core_word_println
 //@use coll.fns ::core_word_exit
+// ---- the printer of vectors, maps and integers (arms of fmt::Debug for Cell)
+//@include preamble/fmt_sink.rs
+// rpds RedBlackTreeMap::iter (ASSUMED): the entries in key order
+#[verifier::external_body] pub struct XmapIter<'a> { _p: &'a u8 }
+impl<'a> XmapIter<'a> { pub uninterp spec fn rem(&self) -> Seq<(&'a Cell, &'a Cell)>; }
+impl<'a> vstd::std_specs::iter::IteratorSpecImpl for XmapIter<'a> {
+    open spec fn obeys_prophetic_iter_laws(&self) -> bool { true }
+    open spec fn remaining(&self) -> Seq<(&'a Cell, &'a Cell)> { self.rem() }
+    open spec fn will_return_none(&self) -> bool { true }
+    open spec fn decrease(&self) -> Option<nat> { Some(self.rem().len()) }
+    open spec fn peek(&self, index: int) -> Option<(&'a Cell, &'a Cell)> {
+        if 0 <= index < self.rem().len() { Some(self.rem()[index]) } else { None }
+    }
+}
+impl<'a> Iterator for XmapIter<'a> {
+    type Item = (&'a Cell, &'a Cell);
+    #[verifier::external_body] fn next(&mut self) -> Option<(&'a Cell, &'a Cell)> { unimplemented!() }
+}
+impl Xmap {
+    #[verifier::external_body] pub fn iter(&self) -> (r: XmapIter<'_>)
+        ensures r.rem().len() == xmap_size(*self),
+            forall|i: int| 0 <= i < xmap_size(*self) ==> xmap_nth(*self, i) == Some((*(#[trigger] r.rem()[i]).0, *r.rem()[i].1)) { unimplemented!() }
+}
+// what the printer writes for a cell under given flags (the recursive call of fmt::Debug for Cell; ASSUMED a function of both)
+pub uninterp spec fn cell_text(c: Cell, fl: Option<usize>) -> Seq<char>;
+#[verifier::external_body] fn verif_cell_fmt(x: &Cell, f: &mut Formatter) -> (r: FmtResult)
+    ensures final(f).wd() == old(f).wd(), r is Ok ==> final(f).out() == old(f).out() + cell_text(*x, old(f).wd())
+{ unimplemented!() }
+// std integer formatting (`{}`, `{:b}`, `{:#x}` ..): ASSUMED a function of the number, the base, the prefix and the case
+pub uninterp spec fn int_text(n: i128, base: int, prefix: bool, upcase: bool) -> Seq<char>;
+#[verifier::external_body] fn verif_write_int(f: &mut Formatter, n: &i128, base: u32, prefix: bool, upcase: bool) -> (r: FmtResult)
+    ensures r is Ok ==> final(f).out() == old(f).out() + int_text(*n, base as int, prefix, upcase)
+{ unimplemented!() }
+pub open spec fn lit2(a: char, b: char) -> Seq<char> { seq![a, b] }
+pub open spec fn vec_text(v: Seq<Cell>, n: int, fl: Option<usize>) -> Seq<char>
+    decreases n
+{
+    if n <= 0 { Seq::empty() } else { vec_text(v, n - 1, fl) + cell_text(v[n - 1], fl) + seq![' '] }
+}
+pub open spec fn map_text(m: Xmap, n: int, fl: Option<usize>) -> Seq<char>
+    decreases n
+{
+    if n <= 0 { Seq::empty() } else { let e = xmap_nth(m, n - 1).unwrap(); map_text(m, n - 1, fl) + cell_text(e.1, fl) + seq![' '] + cell_text(e.0, fl) + seq![' '] }
+}
+//@use coll.fns "impl fmt::Debug for Cell"::fmt#vector
+//@use coll.fns "impl fmt::Debug for Cell"::fmt#map
+//@use coll.fns "impl fmt::Debug for Cell"::fmt#int
 
 } // verus!
 fn main() {}
